@@ -157,7 +157,7 @@ func NewSpecDB() *SpecDB {
 var keywords = map[string]bool{"func": true, "callback": true, "method": true, "props": true, "requires": true,
 	"ensures": true, "onpanic": true, "loop": true, "at": true, "maypanic": true, "effect": true, "trusted": true,
 	"ghost": true, "axiom": true, "event": true, "guarded": true, "immutable": true, "lockinv": true, "level": true,
-	"inline": true, "def": true, "unlocked": true, "cover": true, "alias": true, "initwriter": true, "setteronly": true, "atomic": true, "effectstruct": true, "chaninv": true, "fact": true, "ghostheap": true, "modifies": true, "iterate": true, "pathwise": true}
+	"inline": true, "def": true, "unlocked": true, "cover": true, "alias": true, "initwriter": true, "setteronly": true, "atomic": true, "effectstruct": true, "chaninv": true, "fact": true, "ghostheap": true, "modifies": true, "iterate": true, "pathwise": true, "decreases": true}
 
 var reLabel = regexp.MustCompile(`^\[([^\]]+)\]\s*`)
 var reProps = regexp.MustCompile(`^\{([^}]*)\}\s*`)
@@ -260,6 +260,17 @@ func (db *SpecDB) LoadFile(path string) error {
 			cur.EffectStruct = strings.TrimSpace(rest)
 		case "effect":
 			cur.Effect = strings.TrimSpace(rest)
+		case "decreases":
+			// variant of a self-recursive function: at every recursive call the callee's value
+			// must be smaller than the caller's value at entry, which must be non-negative
+			c, err := parseClause(kw, rest, pos)
+			if err != nil {
+				return fail(err)
+			}
+			if cur == nil {
+				return fail(fmt.Errorf("clause outside block"))
+			}
+			cur.Decreases = append(cur.Decreases, c)
 		case "requires", "ensures", "onpanic", "cover":
 			c, err := parseClause(kw, rest, pos)
 			if err != nil {
